@@ -440,12 +440,14 @@ theorem signText_tok (neg : Bool) : TokText (signText neg) := by
 /-- the literal is a bracketed list -/
 def Lit.isList : Lit → Bool
   | .list _ => true
+  | .blist _ _ => true
   | _ => false
 
 theorem Lit.text_tok (l : Lit) (h : l.rd = true) (hl : l.isList = false) :
     TokText l.text ∧ l.text ≠ [] := by
   cases l with
   | list ns => cases hl
+  | blist pre ns => cases hl
   | none => exact ⟨by unfold TokText Lit.text; decide, by decide⟩
   | bool b => cases b <;> exact ⟨by unfold TokText Lit.text; decide, by decide⟩
   | int neg ds =>
@@ -457,7 +459,7 @@ theorem Lit.text_tok (l : Lit) (h : l.rd = true) (hl : l.isList = false) :
     simp only [Lit.rd, NumLit.rd, Bool.and_eq_true] at h
     obtain ⟨⟨hip, hfp⟩, hex⟩ := h
     obtain ⟨hine, hid⟩ := allDigits_iff.1 hip
-    obtain ⟨_, hfd⟩ := allDigits_iff.1 hfp
+    have hfd : ∀ c ∈ fp, isDig c = true := fun c hc => List.all_eq_true.1 hfp c hc
     refine ⟨?_, by simp [Lit.text]⟩
     simp only [Lit.text]
     have hdot : keyChar '.' = true ∧ '.' ≠ '(' := by decide
@@ -523,7 +525,7 @@ theorem NumLit.text_chars (n : NumLit) (h : n.rd = true) : ∀ c ∈ n.text, num
     simp only [NumLit.rd, Bool.and_eq_true] at h
     obtain ⟨⟨hip, hfp⟩, hex⟩ := h
     obtain ⟨_, hid⟩ := allDigits_iff.1 hip
-    obtain ⟨_, hfd⟩ := allDigits_iff.1 hfp
+    have hfd : ∀ c ∈ fp, isDig c = true := fun c hc => List.all_eq_true.1 hfp c hc
     intro c hc
     simp only [NumLit.text, List.mem_append, List.mem_cons] at hc
     rcases hc with hc | hc | rfl | hc | hc
@@ -557,6 +559,7 @@ theorem NumLit.toLit_val (n : NumLit) : n.toLit.val = n.num.toVal := by cases n 
 theorem Lit.text_closed (l : Lit) (h : l.rd = true) (hl : l.isList = false) : Closed l.text := by
   cases l with
   | list ns => cases hl
+  | blist pre ns => cases hl
   | none => exact Closed_of_no_bracket (by decide)
   | bool b => cases b <;> exact Closed_of_no_bracket (by decide)
   | int neg ds =>
@@ -596,21 +599,23 @@ theorem TokOK_plain {t : List Char} (ht : TokText t) (hne : t ≠ []) (hc : Clos
     have := keyChar_not_ws (ht _ hm).1
     simp [isWs] at this
 
-theorem TokOK_list (inner : List Char) (h : ∀ c ∈ inner, numTextChar c = true ∨ c = ',') :
+theorem TokOK_list (inner : List Char) (h : ∀ c ∈ inner, numTextChar c = true ∨ c = ',' ∨ c = ' ') :
     TokOK ('[' :: (inner ++ [']'])) := by
   have hl : ∀ c ∈ inner, numListChar c = true := fun c hc => by
-    rcases h c hc with h' | rfl
+    rcases h c hc with h' | rfl | rfl
     · exact (numTextChar_facts h').2.2.2.2.1
     · decide
-  have hno : ∀ d : Char, d ≠ '[' → d ≠ ']' → d ≠ ',' → numTextChar d = false →
+    · decide
+  have hno : ∀ d : Char, d ≠ '[' → d ≠ ']' → d ≠ ',' → d ≠ ' ' → numTextChar d = false →
       d ∉ '[' :: (inner ++ [']']) := by
-    intro d h1 h2 h3 h4 hm
+    intro d h1 h2 h3 h5 h4 hm
     simp only [List.mem_cons, List.mem_append, List.not_mem_nil, or_false] at hm
     rcases hm with rfl | hm | rfl
     · exact h1 rfl
-    · rcases h d hm with h' | rfl
+    · rcases h d hm with h' | rfl | rfl
       · rw [h4] at h'; cases h'
       · exact h3 rfl
+      · exact h5 rfl
     · exact h2 rfl
   exact {
     scan := ScanOK_list inner hl
@@ -624,8 +629,8 @@ theorem TokOK_list (inner : List Char) (h : ∀ c ∈ inner, numTextChar c = tru
         simp
       rw [this] at hc
       simp only [Option.some.injEq] at hc; subst hc; decide
-    noParen := hno '(' (by decide) (by decide) (by decide) (by decide)
-    noTab := hno '\t' (by decide) (by decide) (by decide) (by decide) }
+    noParen := hno '(' (by decide) (by decide) (by decide) (by decide) (by decide)
+    noTab := hno '\t' (by decide) (by decide) (by decide) (by decide) (by decide) }
 
 theorem mem_joinComma {ts : List (List Char)} {c : Char} (h : c ∈ joinComma ts) :
     c = ',' ∨ ∃ t ∈ ts, c ∈ t := by
@@ -652,6 +657,35 @@ theorem listInner_chars (ns : List NumLit) (h : ns.all NumLit.rd = true) :
   · obtain ⟨n, hn, rfl⟩ := List.mem_map.1 ht
     exact Or.inl (NumLit.text_chars n (List.all_eq_true.1 h n hn) c hct)
 
+theorem mem_blanks {k : Nat} {c : Char} (h : c ∈ blanks k) : c = ' ' := by
+  unfold blanks at h
+  exact (List.mem_replicate.1 h).2
+
+theorem mem_bbody {ns : List (NumLit × Nat)} {c : Char} (h : c ∈ bbody ns) :
+    c = ' ' ∨ ∃ p ∈ ns, c ∈ p.1.text := by
+  induction ns with
+  | nil => cases h
+  | cons p t ih =>
+    obtain ⟨n, g⟩ := p
+    simp only [bbody, List.mem_append] at h
+    rcases h with h | h | h
+    · exact Or.inr ⟨(n, g), List.mem_cons_self, h⟩
+    · exact Or.inl (mem_blanks h)
+    · rcases ih h with rfl | ⟨q, hq, hc⟩
+      · exact Or.inl rfl
+      · exact Or.inr ⟨q, List.mem_cons_of_mem _ hq, hc⟩
+
+/-- the characters between the brackets of a readable blank-separated list -/
+theorem blistInner_chars (pre : Nat) (ns : List (NumLit × Nat))
+    (h : (ns.all fun p => p.1.rd) = true) :
+    ∀ c ∈ blanks pre ++ bbody ns, numTextChar c = true ∨ c = ',' ∨ c = ' ' := by
+  intro c hc
+  rcases List.mem_append.1 hc with hc | hc
+  · exact Or.inr (Or.inr (mem_blanks hc))
+  · rcases mem_bbody hc with rfl | ⟨p, hp, hcp⟩
+    · exact Or.inr (Or.inr rfl)
+    · exact Or.inl (NumLit.text_chars p.1 (List.all_eq_true.1 h p hp) c hcp)
+
 /-- every well-formed literal is a token the scanner, the splitter and `strip()` leave whole -/
 theorem Lit.text_ok (l : Lit) (h : l.rd = true) : TokOK l.text := by
   cases hl : l.isList with
@@ -660,7 +694,10 @@ theorem Lit.text_ok (l : Lit) (h : l.rd = true) : TokOK l.text := by
     exact TokOK_plain ht hne (Lit.text_closed l h hl)
   | true =>
     cases l with
-    | list ns => exact TokOK_list _ (listInner_chars ns h)
+    | list ns => exact TokOK_list _ fun c hc => (listInner_chars ns h c hc).imp_right Or.inl
+    | blist pre ns =>
+      simp only [Lit.rd, Bool.and_eq_true] at h
+      exact TokOK_list _ (blistInner_chars pre ns h.1)
     | none => cases hl
     | bool b => cases hl
     | int neg ds => cases hl
@@ -786,11 +823,11 @@ theorem takeWhile_digits_then (ds r : List Char) (hd : ∀ c ∈ ds, isDig c = t
     simp [List.takeWhile, List.dropWhile, this]
 
 theorem float_text_tok (neg : Bool) (ip fp : List Char) (ex : Option (Bool × List Char))
-    (hip : allDigits ip = true) (hfp : allDigits fp = true)
+    (hip : allDigits ip = true) (hfp : fp.all isDig = true)
     (hex : match ex with | none => True | some p => allDigits p.2 = true) :
     TokText (Lit.float neg ip fp ex).text := by
   obtain ⟨_, hid⟩ := allDigits_iff.1 hip
-  obtain ⟨_, hfd⟩ := allDigits_iff.1 hfp
+  have hfd : ∀ c ∈ fp, isDig c = true := fun c hc => List.all_eq_true.1 hfp c hc
   simp only [Lit.text]
   have hdot : keyChar '.' = true ∧ '.' ≠ '(' := by decide
   have he : keyChar 'e' = true ∧ 'e' ≠ '(' := by decide
@@ -803,11 +840,11 @@ theorem float_text_tok (neg : Bool) (ip fp : List Char) (ex : Option (Bool × Li
     exact TokText.cons he ((signText_tok eneg).append (digits_tok (allDigits_iff.1 hex).2))
 
 theorem pyNum_float (neg : Bool) (ip fp : List Char) (ex : Option (Bool × List Char))
-    (hip : allDigits ip = true) (hfp : allDigits fp = true)
+    (hip : allDigits ip = true) (hfp : fp.all isDig = true)
     (hex : match ex with | none => True | some p => allDigits p.2 = true) :
     pyNum (Lit.float neg ip fp ex).text = some (.float (floatVal neg ip fp ex)) := by
   obtain ⟨hine, hid⟩ := allDigits_iff.1 hip
-  obtain ⟨hfne, hfd⟩ := allDigits_iff.1 hfp
+  have hfd : ∀ c ∈ fp, isDig c = true := fun c hc => List.all_eq_true.1 hfp c hc
   have htok := float_text_tok neg ip fp ex hip hfp hex
   obtain ⟨a, u, rfl⟩ := List.exists_cons_of_ne_nil hine
   have hdotd : isDig '.' = false := by decide
@@ -832,7 +869,7 @@ theorem pyNum_float (neg : Bool) (ip fp : List Char) (ex : Option (Bool × List 
   simp [pyNum, hi, hf]
 
 theorem getArg_float (neg : Bool) (ip fp : List Char) (ex : Option (Bool × List Char))
-    (hip : allDigits ip = true) (hfp : allDigits fp = true)
+    (hip : allDigits ip = true) (hfp : fp.all isDig = true)
     (hex : match ex with | none => True | some p => allDigits p.2 = true) :
     getArg (Lit.float neg ip fp ex).text = (Lit.float neg ip fp ex).val := by
   obtain ⟨hine, hid⟩ := allDigits_iff.1 hip
@@ -976,6 +1013,147 @@ theorem getArg_list (ns : List NumLit) (h : ns.all NumLit.rd = true) :
   rw [if_neg k1, if_neg k2, hn]
   simp only [if_neg k3, hl, if_true, hvals]
 
+/-- a bracketed token whose `_ListItems` are number texts reads as the list of those numbers -/
+theorem getArg_bracketed (inner : List Char) (ts : List (List Char)) (nums : List Num)
+    (hok : TokOK ('[' :: (inner ++ [']'])))
+    (hitems : listItems ('[' :: (inner ++ [']'])) = ts)
+    (hnums : List.Forall₂ (fun t n => pyNum t = some n) ts nums) :
+    getArg ('[' :: (inner ++ [']'])) = .list nums := by
+  set s := '[' :: (inner ++ [']']) with hs
+  obtain ⟨k1, k2, k3⟩ := not_keyword (s := s) (a := '[') (by rw [hs]; rfl) (by decide)
+  have hstrip : stripWs s = s := by
+    obtain ⟨a, u, hau⟩ := List.exists_cons_of_ne_nil hok.ne
+    unfold stripWs
+    have h1 : s.dropWhile isReSpace = s := by
+      rw [hau]; exact dropWhile_head_false _ _ _ (hok.first a (by rw [hau]; rfl))
+    rw [h1]
+    have hrne : s.reverse ≠ [] := by simp [hs]
+    obtain ⟨b, w, hbw⟩ := List.exists_cons_of_ne_nil hrne
+    have hb : s.getLast? = some b := by
+      rw [← List.head?_reverse, hbw]; rfl
+    rw [hbw, dropWhile_head_false _ _ _ (hok.last b hb), ← hbw, List.reverse_reverse]
+  have hi : pyIntOf s = none := by
+    unfold pyIntOf
+    rw [hstrip, hs, splitSign_other _ _ (by decide) (by decide)]
+    simp [allDigits, show isDig '[' = false by decide]
+  have hf : pyFloatOf s = none := by
+    unfold pyFloatOf
+    rw [hstrip, hs, splitSign_other _ _ (by decide) (by decide)]
+    simp [List.takeWhile, List.dropWhile, fracPart, show isDig '[' = false by decide]
+  have hn : pyNum s = none := by simp [pyNum, hi, hf]
+  have hbr : isBracketed s = true := by
+    rw [hs]
+    have : ('[' :: (inner ++ [']'])).getLast? = some ']' := by
+      rw [show '[' :: (inner ++ [']']) = ('[' :: inner) ++ [']'] by simp, List.getLast?_append]
+      simp
+    simp [isBracketed, this]
+  have hall : (ts.all fun e => (pyNum e).isSome) = true := by
+    rw [List.all_eq_true]
+    intro x hx
+    clear hitems
+    induction hnums with
+    | nil => cases hx
+    | cons h1 _ ih =>
+      rcases List.mem_cons.1 hx with rfl | hx
+      · rw [h1]; rfl
+      · exact ih hx
+  have hl : isListOfNums s = true := by
+    unfold isListOfNums
+    simp only [hitems, hbr, Bool.or_true, Bool.true_and, hall]
+  have hvals : listOfNums s = nums := by
+    unfold listOfNums
+    rw [hitems]
+    clear hall hl hitems
+    induction hnums with
+    | nil => rfl
+    | cons h1 _ ih => simp only [List.filterMap_cons, h1, ih]
+  unfold getArg
+  rw [if_neg k1, if_neg k2, hn]
+  simp only [if_neg k3, hl, if_true, hvals]
+
+theorem filter_split_blanks_append (k : Nat) (r : List Char) :
+    (splitOnP isItemSep (blanks k ++ r)).filter (fun e => !e.isEmpty) =
+      (splitOnP isItemSep r).filter (fun e => !e.isEmpty) := by
+  induction k with
+  | zero => rfl
+  | succ k ih =>
+    have : blanks (k + 1) ++ r = ' ' :: (blanks k ++ r) := by simp [blanks, List.replicate_succ]
+    rw [this]
+    simp only [splitOnP, show isItemSep ' ' = true by decide, if_true, List.filter_cons]
+    simpa using ih
+
+/-- `_ListItems` over the items of a blank-separated list: the item texts -/
+theorem items_bbody (ns : List (NumLit × Nat)) (hrd : ∀ p ∈ ns, p.1.rd = true) (hg : gapsOK ns = true) :
+    (splitOnP isItemSep (bbody ns)).filter (fun e => !e.isEmpty) = ns.map fun p => p.1.text := by
+  induction ns with
+  | nil => rfl
+  | cons p t ih =>
+    obtain ⟨n, g⟩ := p
+    have hn := hrd (n, g) List.mem_cons_self
+    have hsep : ∀ c ∈ n.text, isItemSep c = false := fun c hc =>
+      (numTextChar_facts (NumLit.text_chars n hn c hc)).2.2.2.2.2
+    have hne : (!n.text.isEmpty) = true := by
+      have := NumLit.text_ne n hn
+      cases hmt : n.text with
+      | nil => exact absurd hmt this
+      | cons _ _ => rfl
+    have hrd' : ∀ q ∈ t, q.1.rd = true := fun q hq => hrd q (List.mem_cons_of_mem _ hq)
+    cases g with
+    | zero =>
+      -- no blank after the item: it is the last one
+      cases t with
+      | nil =>
+        simp only [bbody, blanks, List.replicate_zero, List.append_nil, List.map_cons, List.map_nil]
+        rw [splitOnP_none isItemSep n.text hsep]
+        simp [hne]
+      | cons b u => simp [gapsOK] at hg
+    | succ g' =>
+      have hg' : gapsOK t = true := by
+        cases t with
+        | nil => rfl
+        | cons b u => simp only [gapsOK, Bool.and_eq_true] at hg; exact hg.2
+      have hb : bbody ((n, g' + 1) :: t) = n.text ++ ' ' :: (blanks g' ++ bbody t) := by
+        simp [bbody, blanks, List.replicate_succ]
+      rw [hb, splitOnP_append isItemSep n.text _ ' ' (by decide) hsep]
+      simp only [List.filter_cons, hne, if_true, List.map_cons]
+      rw [filter_split_blanks_append, ih hrd' hg']
+
+theorem removeBrackets_blist (pre : Nat) (ns : List (NumLit × Nat))
+    (h : (ns.all fun p => p.1.rd) = true) :
+    removeBrackets (Lit.blist pre ns).text = blanks pre ++ bbody ns := by
+  simp only [Lit.text, removeBrackets, List.filter_cons, List.filter_append]
+  have hkeep : (blanks pre ++ bbody ns).filter (fun c => !(c == '[' || c == ']')) =
+      blanks pre ++ bbody ns := by
+    rw [List.filter_eq_self]
+    intro c hc
+    rcases blistInner_chars pre ns h c hc with h' | rfl | rfl
+    · obtain ⟨_, _, h3, h4, _, _⟩ := numTextChar_facts h'
+      simp [h3, h4]
+    · decide
+    · decide
+  rw [← List.filter_append, hkeep]
+  simp
+
+theorem getArg_blist (pre : Nat) (ns : List (NumLit × Nat))
+    (h : (Lit.blist pre ns).rd = true) :
+    getArg (Lit.blist pre ns).text = .list (ns.map fun p => p.1.num) := by
+  simp only [Lit.rd, Bool.and_eq_true] at h
+  obtain ⟨hrd, hg⟩ := h
+  have hrd' : ∀ p ∈ ns, p.1.rd = true := fun p hp => List.all_eq_true.1 hrd p hp
+  have hok : TokOK ('[' :: ((blanks pre ++ bbody ns) ++ [']'])) :=
+    TokOK_list _ (blistInner_chars pre ns hrd)
+  refine getArg_bracketed (blanks pre ++ bbody ns) (ns.map fun p => p.1.text) _ hok ?_ ?_
+  · unfold listItems
+    have := removeBrackets_blist pre ns hrd
+    simp only [Lit.text] at this
+    rw [this, filter_split_blanks_append, items_bbody ns hrd' hg]
+  · clear hok hg hrd
+    induction ns with
+    | nil => exact List.Forall₂.nil
+    | cons p t ih =>
+      exact List.Forall₂.cons (pyNum_numLit p.1 (hrd' p List.mem_cons_self))
+        (ih fun q hq => hrd' q (List.mem_cons_of_mem _ hq))
+
 theorem getArg_str (dq : Bool) (cs : List Char) (h : cs.all strChar = true) :
     getArg (Lit.str dq cs).text = .str (String.ofList cs) := by
   have htok := (Lit.text_tok (.str dq cs) (by simpa [Lit.rd] using h) rfl).1
@@ -1051,6 +1229,7 @@ theorem getArg_lit (l : Lit) (h : l.rd = true) : getArg l.text = l.val := by
   | list ns =>
     simp only [Lit.rd] at h
     exact getArg_list ns h
+  | blist pre ns => exact getArg_blist pre ns h
 
 /-! ### the whole call -/
 
@@ -1337,6 +1516,111 @@ theorem parseCall_render (name : String) (as : List Arg) (hname : isIdent name =
   · by_cases hn : (argKeys as).Nodup <;> simp [hn]
   · rfl
 
+/-! ### keyword overrides of `safe_eval`: dict update -/
+
+theorem lookup_set_ne (d : Env) (k : String) (v : PyVal) (k' : String) (h : k' ≠ k) :
+    (d.set k v).lookup k' = d.lookup k' := by
+  induction d with
+  | nil => rfl
+  | cons p t ih =>
+    obtain ⟨a, w⟩ := p
+    unfold Env.set at ih ⊢
+    simp only [List.map_cons]
+    by_cases hak : a = k
+    · subst hak
+      have hne : (k' == a) = false := by simpa using h
+      simp only [beq_self_eq_true, if_true, List.lookup, hne]
+      exact ih
+    · have hne : (a == k) = false := by simpa using hak
+      simp only [hne, Bool.false_eq_true, if_false, List.lookup]
+      cases hk : k' == a
+      · exact ih
+      · rfl
+
+theorem lookup_set_mem (d : Env) (k : String) (v : PyVal) (hm : k ∈ d.keys) :
+    (d.set k v).lookup k = some v := by
+  induction d with
+  | nil => simp [Env.keys] at hm
+  | cons p t ih =>
+    obtain ⟨a, w⟩ := p
+    unfold Env.set at ih ⊢
+    simp only [List.map_cons]
+    by_cases hak : a = k
+    · subst hak
+      simp [List.lookup]
+    · have hne : (a == k) = false := by simpa using hak
+      have hne' : (k == a) = false := by simpa using fun e : k = a => hak e.symm
+      simp only [hne, Bool.false_eq_true, if_false, List.lookup, hne']
+      refine ih ?_
+      simp only [Env.keys, List.map_cons, List.mem_cons] at hm
+      rcases hm with hm | hm
+      · exact absurd hm.symm hak
+      · exact hm
+
+theorem lookup_append_single (d : Env) (k : String) (v : PyVal) (k' : String) :
+    (d ++ [(k, v)]).lookup k' = match d.lookup k' with
+      | some w => some w
+      | none => if k' = k then some v else none := by
+  induction d with
+  | nil =>
+    by_cases h : k' = k
+    · subst h; simp [List.lookup]
+    · have hne : (k' == k) = false := by simpa using h
+      simp [List.lookup, hne, h]
+  | cons p t ih =>
+    obtain ⟨a, w⟩ := p
+    by_cases h : k' = a
+    · subst h; simp [List.lookup]
+    · have hne : (k' == a) = false := by simpa using h
+      simp only [List.cons_append, List.lookup, hne]
+      exact ih
+
+theorem lookup_none_iff_not_mem (d : Env) (k : String) : d.lookup k = none ↔ k ∉ d.keys := by
+  induction d with
+  | nil => simp [Env.keys]
+  | cons p t ih =>
+    obtain ⟨a, w⟩ := p
+    by_cases h : k = a
+    · subst h; simp [List.lookup, Env.keys]
+    · have hne : (k == a) = false := by simpa using h
+      simp only [List.lookup, hne, Env.keys, List.map_cons, List.mem_cons, h, false_or]
+      simpa [Env.keys] using ih
+
+/-- `kwargs[k] = v`: the key reads `v` afterwards, every other key is unchanged -/
+theorem lookup_dictInsert (d : Env) (k : String) (v : PyVal) (k' : String) :
+    (dictInsert d k v).lookup k' = if k' = k then some v else d.lookup k' := by
+  unfold dictInsert
+  by_cases hm : k ∈ d.keys
+  · have : d.keys.contains k = true := by simpa using hm
+    rw [this, if_pos rfl]
+    by_cases hk : k' = k
+    · subst hk; rw [if_pos rfl]; exact lookup_set_mem d k' v hm
+    · rw [if_neg hk]; exact lookup_set_ne d k v k' hk
+  · have : d.keys.contains k = false := by simpa using hm
+    rw [this]
+    simp only [Bool.false_eq_true, if_false]
+    rw [lookup_append_single]
+    by_cases hk : k' = k
+    · subst hk
+      rw [(lookup_none_iff_not_mem d k').2 hm]
+    · simp only [hk, if_false]
+      cases d.lookup k' <;> rfl
+
+/-- after all overrides: the LAST override of a key wins, a key without override keeps the
+    value of the text -/
+theorem lookup_overrideKw (d kw : Env) (k : String) :
+    (overrideKw d kw).lookup k = match kw.reverse.lookup k with
+      | some v => some v
+      | none => d.lookup k := by
+  induction kw generalizing d with
+  | nil => rfl
+  | cons p t ih =>
+    obtain ⟨a, w⟩ := p
+    simp only [overrideKw, ih, List.reverse_cons, lookup_append_single, lookup_dictInsert]
+    cases t.reverse.lookup k with
+    | some v => rfl
+    | none => by_cases h : k = a <;> simp [h]
+
 /-! ### well-formed (Python-valid) implies readable -/
 
 theorem NumLit.rd_of_wf (n : NumLit) (h : n.wf = true) : n.rd = true := by
@@ -1352,6 +1636,7 @@ theorem Lit.rd_of_wf (l : Lit) (h : l.wf = true) : l.rd = true := by
   | list ns =>
     simp only [Lit.wf, Lit.rd, List.all_eq_true] at h ⊢
     exact fun n hn => NumLit.rd_of_wf n (h n hn)
+  | blist pre ns => simp [Lit.wf] at h
 
 theorem Arg.rd_of_wf (a : Arg) (h : a.wf = true) : a.rd = true := by
   cases a with
